@@ -222,32 +222,42 @@ func rangeAux(g *Group) (string, bool) {
 	return strings.Join(out, ";"), collision
 }
 
-// classify an invalid sticky plan for the signature (history shape)
+// classify an invalid sticky plan by the shape of the input (for the signature): the previous-owner branch of
+// performReassignments is in play when a member claims, in its user data, a partition of a topic it does not list
 func stickyClass(g *Group, why, detail string) string {
-	if why != "unassigned" && why != "nonsubscriber" {
-		return ""
+	claims := func(m *Member, p TP) bool {
+		for _, q := range m.UD.Parts {
+			if q == p {
+				return true
+			}
+		}
+		return false
 	}
-	members, _ := g.saramaInput()
-	_, prev, err := sarama.VerifPrepopulate(members)
-	if err != nil {
-		return ""
-	}
-	var p TP
-	if why == "unassigned" {
-		p = parseTPs(detail)[0]
-	} else {
+	switch why {
+	case "unassigned":
+		p := parseTPs(detail)[0]
+		for i := range g.Members {
+			if claims(&g.Members[i], p) && !subscribed(&g.Members[i], p.T) {
+				return "/claimed-by-nonsubscriber"
+			}
+		}
+		// the parked member that lost its fixed assignment (revert path) shows up as holder of a stale claim
+		for i := range g.Members {
+			m := &g.Members[i]
+			for _, q := range m.UD.Parts {
+				if !subscribed(m, q.T) && g.topic(q.T) != nil && hasPart(g.topic(q.T), q.P) {
+					return "/some-stale-claim-by-nonsubscriber"
+				}
+			}
+		}
+	case "nonsubscriber":
 		f := strings.Fields(detail)
-		p = parseTPs(f[len(f)-1])[0]
+		p := parseTPs(f[len(f)-1])[0]
+		if m := g.member(f[0]); m != nil && claims(m, p) {
+			return "/own-stale-claim"
+		}
 	}
-	pv, ok := prev[sarama.VerifTP{Topic: p.T, Partition: p.P}]
-	if !ok {
-		return ""
-	}
-	pm := g.member(pv.Member)
-	if pm != nil && !subscribed(pm, p.T) {
-		return "/previous-owner-not-subscribed"
-	}
-	return "/has-previous-owner"
+	return ""
 }
 
 // doPlan runs one strategy on one group, emits the op lines and evaluates the oracles.
@@ -361,7 +371,13 @@ func doPlan(strat, kind string, g *Group) (Asg, map[string]string) {
 			fail("sticky-leave-moved", "a remaining member lost a partition when another member left")
 		}
 		if v["join"] == "0" {
-			fail("sticky-join-shuffled", "a partition moved between old members when a member joined")
+			cls := ""
+			for _, t := range g.Topics {
+				if !g.hasSubscriber(t.Name) {
+					cls = "/topic-without-subscriber"
+				}
+			}
+			fail("sticky-join-shuffled"+cls, "a partition moved between old members when a member joined")
 		}
 		if v["swap"] == "0" {
 			fail("sticky-pairwise-swap", "two members exchanged partitions of one topic")
